@@ -305,6 +305,7 @@ uint8_t sdk_flash[SDK_FLASH_SECTORS * 4096];
 int sdk_flash_fail_at = 0, sdk_flash_fail_mode = 0, sdk_flash_crash_at = 0;
 int sdk_flash_ops = 0;
 int sdk_flash_log = 0;
+int sdk_flash_partial = 0; /* bytes of the crashing write that still reach the flash */
 
 static void crash_now(void) {
   sdk_out("POWERLOSS");
@@ -331,7 +332,12 @@ SpiFlashOpResult spi_flash_erase_sector(uint16 sec) {
 }
 SpiFlashOpResult spi_flash_write(uint32 des, uint32 *src, uint32 size) {
   sdk_flash_ops++;
-  if (sdk_flash_crash_at && sdk_flash_ops == sdk_flash_crash_at) crash_now();
+  if (sdk_flash_crash_at && sdk_flash_ops == sdk_flash_crash_at) {
+    const uint8_t *s = (const uint8_t *)src;
+    for (uint32 i = 0; i < size && (int)i < sdk_flash_partial && (uint64_t)des + i < sizeof(sdk_flash); i++)
+      sdk_flash[des + i] &= s[i];
+    crash_now();
+  }
   int fail = sdk_flash_fail_at && sdk_flash_ops == sdk_flash_fail_at;
   int effect = !fail || sdk_flash_fail_mode == 1;
   if ((uint64_t)des + size > sizeof(sdk_flash)) {
